@@ -154,6 +154,28 @@ class SeenWalk(WalkMapper):
 class PlainFlops(FlopCounterBase):
     pass
 
+
+def _hooked_deps(base):
+    class Hooked(base):
+        """overrides the documented per-wrapper hook: wrappers also report a marker"""
+        def map_common_subexpression_uncached(self, expr, *a, **k):
+            return {p.Variable("wrapper_seen"), *super().map_common_subexpression_uncached(expr, *a, **k)}
+    return Hooked
+
+
+HookedDeps, HookedCachedDeps = _hooked_deps(DependencyMapper), _hooked_deps(CachedDependencyMapper)
+
+
+def _hooked_eval(base):
+    class Hooked(base):
+        """overrides the documented per-wrapper hook: the value of a wrapper is offset by 1000"""
+        def map_common_subexpression_uncached(self, expr):
+            return super().map_common_subexpression_uncached(expr) + 1000
+    return Hooked
+
+
+HookedEval, HookedCachedEval = _hooked_eval(EvaluationMapper), _hooked_eval(CachedEvaluationMapper)
+
 # }}}
 
 
@@ -202,6 +224,11 @@ def c_history(ctx, case):
          False, False),
         ("dependency", lambda w: w(CachedDependencyMapper)(**flags),
          lambda: DependencyMapper(**flags), False, False),
+        # the same pairs with a documented extension hook overridden IDENTICALLY on both
+        ("dependency+hook", lambda w: w(HookedCachedDeps)(**flags), lambda: HookedDeps(**flags),
+         False, False),
+        ("evaluation+hook", lambda w: w(HookedCachedEval)(env), lambda: HookedEval(env),
+         False, False),
         ("substitution", lambda w: w(CachedSubstitutionMapper)(make_subst_func(subst)),
          lambda: SubstitutionMapper(make_subst_func(subst)), False, False),
         ("flops", lambda w: w(FlopCounter)(), lambda: PlainFlops(), False, False),
@@ -298,6 +325,84 @@ def c_history(ctx, case):
         pass
 
 
+def big_expression(n, rng):
+    """>= 3n distinct nodes; the shared pieces recur before and after every other node"""
+    y2 = p.Power(V["y"], 2)
+    shared = p.Sum((V["x"], y2))
+    terms = []
+    for i in range(n):
+        t = p.Product((p.Variable(f"v{i}"), y2 if i % 2 else G.deep_rebuild(y2)))
+        terms.append(p.Sum((t, shared)) if i % 97 == 0 else t)
+    return p.Sum((shared, *terms, G.deep_rebuild(shared)))
+
+
+@check("C05.big")
+def c_big(ctx, case):
+    """One memoizing instance that accumulates THOUSANDS of keys -- one big expression, and a
+    long history of small ones: each key is still computed once, every distinct node is still
+    visited / counted once, results still equal the non-memoizing counterpart's."""
+    n, seed = case
+    rng = ctx.sub_rng("big", seed)
+    e = big_expression(n, rng)
+    distinct = {}
+    for x in G.walk(e):
+        if isinstance(x, p.Expression) or isinstance(x, (int, float)):
+            distinct[(type(x), x)] = 1
+    ctx.case(None)
+    ctx.count("big_expressions")
+    ctx.count("big_distinct_nodes", len(distinct))
+    m = CountedRenamer()
+    out = m(e, "p_")
+    again = m(e, "p_")
+    want = PlainRenamer()(e, "p_")
+    if not teq(out, want) or not teq(again, want):
+        ctx.fail("C05.big", case, "identity:differs",
+                 f"CachedIdentityMapper over an expression of {len(distinct)} distinct nodes "
+                 f"differs from the plain mapper's result")
+    twice = {k: c for k, c in m.cnt.items() if c > 1}
+    if twice:
+        k = next(iter(twice))
+        ctx.fail("C05.big", case, f"computed-twice:{k[0].__name__}",
+                 f"one CachedIdentityMapper over an expression of {len(distinct)} distinct nodes "
+                 f"(called twice): key (type={k[0].__name__}, expr={G.src(k[1])}, args={k[2]}) was "
+                 f"computed {twice[k]} times; {len(twice)} keys in all were computed more than once")
+    cw, pw, nc = SeenCachedWalk(), SeenWalk(), NodeCountMapper()
+    cw(e)
+    pw(e)
+    nc(e)
+    cs, ps = Counter(cw.seen), set(pw.seen)
+    if set(cs) != ps or any(v > 1 for v in cs.values()):
+        ctx.fail("C05.big", case, "walk:visited-set",
+                 f"CachedWalkMapper over {len(ps)} distinct nodes visited {len(cs)} distinct nodes, "
+                 f"max multiplicity {max(cs.values())}")
+    if nc.count != len(ps):
+        ctx.fail("C05.big", case, "nodecount",
+                 f"NodeCountMapper counted {nc.count} nodes, the plain walker saw {len(ps)} "
+                 f"distinct ones")
+    # a long history of small expressions on one instance
+    m2, cw2 = CountedRenamer(), SeenCachedWalk()
+    small = [p.Sum((V["x"], i)) for i in range(n)]
+    for rounds in range(2):
+        for i in (range(n) if rounds == 0 else rng.sample(range(n), 200)):
+            r = m2(small[i], "q_")
+            cw2(small[i])
+            if rounds and not teq(r, PlainRenamer()(small[i], "q_")):
+                ctx.fail("C05.big", case, "history:differs",
+                         f"call on {small[i]} after {n} earlier calls on one instance differs")
+                break
+    ctx.count("big_history_calls", n + 200)
+    twice = {k: c for k, c in m2.cnt.items() if c > 1}
+    cs2 = Counter(cw2.seen)
+    if twice or any(v > 1 for v in cs2.values()):
+        k = next(iter(twice), None)
+        ctx.fail("C05.big", case, "history:computed-twice",
+                 f"one instance over a history of {n + 200} calls on {n} distinct small "
+                 f"expressions: {len(twice)} keys computed more than once"
+                 + (f", e.g. {G.src(k[1])} {twice[k]} times" if k else "")
+                 + f"; the cached walker visited {sum(1 for v in cs2.values() if v > 1)} nodes "
+                 f"more than once")
+
+
 def _depflags(d):
     return (d["include_subscripts"], d["include_lookups"], d["include_calls"], d["include_cses"])
 
@@ -308,7 +413,7 @@ def c_instances(ctx, case):
     class with different configurations (analysis flags, environments, substitution maps),
     used alternately on the same expressions, each give what an independent reference gives
     for its own configuration -- whatever the other one has already been asked."""
-    from .c08 import refsub
+    from .c08 import has_zero_cse, refsub
     from .c09 import depmodel
     pool, hist, fa, fb = case
     enva = {"x": 3, "y": -2, "z": 5, "a": [1, 2, 3], "b": 7, "f": lambda *a, **k: sum(a) + 1}
@@ -346,6 +451,13 @@ def c_instances(ctx, case):
                 ctx.case(None)
                 ctx.count("instance_calls")
                 ctx.count("instances:" + name)
+                if got[0] == "v" and not eq(got[1], want) and name == "cached-substitution" \
+                        and has_zero_cse(e, list(cfgs[which].items())) \
+                        and eq(got[1], refsub(e, list(cfgs[which].items()), collapse_cse=True)):
+                    # the identity traversal's zero-wrapper collapse (finding of C04/C08): the
+                    # non-memoizing counterpart does the same, not a memoization matter
+                    ctx.count("instances_zero_cse_collapse_seen")
+                    continue
                 if got[0] != "v" or not eq(got[1], want):
                     if twins and name.startswith("cached"):
                         ctx.count("instances_twin_pool_skipped")
@@ -474,6 +586,10 @@ def workload(ctx):
                           include_calls=rng.choice([True, False, "descend_args"]),
                           include_subscripts=not flags["include_subscripts"])
                 ctx.run("C05.instances", (pool, hist, flags, fb))
+        for n in ([400, 1500, 2600] if not ctx.thorough else [400, 700, 1500, 2600, 6000, 12000]):
+            if ctx.mine("big"):
+                ctx.case(("big", n), True, n=0)
+                ctx.run("C05.big", (n, rng.randrange(10**6)))
         for k, v in tr.handlers().items():
             ctx.count("handler:" + k, v)
         ctx.count("handler:CachedMapper.get_cache_key", tr.counts.get("CachedMapper.get_cache_key", 0))
@@ -503,6 +619,8 @@ def workload(ctx):
         ctx.count("optimizer_histories")
         ctx.run("C05.optimize", (jobs,))
     ctx.floor("history_calls", 20000)
+    ctx.floor("big_distinct_nodes", 9000)
+    ctx.floor("big_history_calls", 4000)
     for k in ("dependency", "cached-dependency", "evaluation", "cached-evaluation",
               "cached-substitution"):
         ctx.floor("instances:" + k, 300)
